@@ -1,9 +1,14 @@
 """C12 - concurrent submissions are serialisable: conflict-free admission, no deadlock.
 
-Specification spec/SpinLock.tla: processes DoTx(tx) / SelectUtxos(addr, amount, lock) / Play(block) at the
-granularity of the lock protocol's atomic steps (per key LoadOrStore, refCounter.Add; pool check, validate,
-batch write, publish; per key Release, Delete; tryLockKey under MutexMem; RW mutex), bound to
+Specification spec/SpinLock.tla: processes DoTx(tx) / SelectUtxos(addr, amount, lock) / Play(block) / Walk(block) at
+the granularity of the lock protocol's atomic steps (per key LoadOrStore, refCounter.Add; pool check, validate,
+batch write, publish; per key Release, Delete; tryLockKey under MutexMem; RW mutex: play and walk exclusive), bound to
 bcs/ledger/xledger/state by
+
+(0) the lock table on its own (spec/LockTable.tla): TLC-generated sequences of whole TryLock / Unlock calls of three
+    clients on one real utxo.SpinLock; result and IsLocked of every key after each call are judged by
+    spec/Trace_LockTable.tla (a change of the protocol's structure is judged at its own level, whether or not the
+    step model below still describes the code);
 
 (1) TLC model checks of the IDEAL lock protocol (atomic reader/writer key lock): exclusion per key in the
     critical section, conflict-free admitted set, selections disjoint, final state = some serial order, nothing
@@ -21,6 +26,13 @@ bcs/ledger/xledger/state by
 (4) free-running stress runs (no gates, seeded request mix) judged by the same trace specification; thorough
     tier: the same driver built with -race as a sensor (a report on the lock table is a trace event no action
     explains; other reports are diagnostics in the evidence).
+
+The played / walked blocks contain a contract invocation the node has not seen (family kv: verified under the
+exclusive lock through the real contract and ACL managers, which read the confirmed tip). A request that does not
+return within the driver's bound has the result class "hang", which the specification never produces. Every run is
+judged by its outcome whether or not it followed its schedule (a run that leaves the schedule is continued as a
+seeded random schedule at the code's own yield points): an outcome no one-at-a-time order explains is a VIOLATION;
+only when nothing is refuted and schedules were not followed is the verdict "binding lost" (exit 2).
 """
 import concurrent.futures
 import glob
@@ -80,6 +92,7 @@ def patched_cfg(run, cfg, consts):
 
 
 def mc(run, cfg, consts, workers=16, timeout=900):
+    """(called from worker threads: run.tlc_mc only appends to run.cov)"""
     path = patched_cfg(run, cfg, consts)
     res = run.tlc_mc("SpinLock", path, name="mc_" + cfg.replace(".cfg", ""), workers=workers, timeout=timeout)
     res["cfg"] = cfg
@@ -121,6 +134,12 @@ def mc_find(run, cfg, consts, name, timeout=600):
     raise vp.Undecided("TLC failed on %s (rc=%d)" % (cfg, rc))
 
 
+def mc_locktable(run):
+    res = run.tlc_mc("LockTable", "MC_LockTable.cfg", name="mc_locktable", workers=2, timeout=300)
+    res["cfg"] = "MC_LockTable.cfg"
+    return res
+
+
 # ------------------------------------------------------------------------------------------------ harness helpers
 def build_race(run):
     out = os.path.join(run.work, "c12race")
@@ -137,7 +156,7 @@ def build_race(run):
     return out
 
 
-def drive(run, binary, args, tag, extra_env=None, timeout=1500):
+def drive(run, binary, args, tag, extra_env=None, timeout=900):
     """One driver process with a work directory of its own (several run in parallel)."""
     env = dict(vp.GOENV, VERIF_SEED=str(run.seed), VERIF_TIER=run.tier, VERIF_WORK=run.sub("go_" + tag))
     env.update(extra_env or {})
@@ -154,6 +173,34 @@ def drive(run, binary, args, tag, extra_env=None, timeout=1500):
         return json.loads(p.stdout.strip().splitlines()[-1]), p.stderr
     except Exception:
         return {}, p.stderr
+
+
+def unit_level(run, thorough):
+    """(0) spec/LockTable.tla: generated call sequences on one real utxo.SpinLock, judged by Trace_LockTable."""
+    nb = 1200 if thorough else 300
+    run.tlc_gen("Gen_LockTable", "Gen_LockTable.cfg", nb, 45, name="genlt", timeout=300)
+    d = os.path.join(run.work, "genlt", "out")
+    trace = os.path.join(run.work, "unit.ndjson")
+    st, _ = drive(run, run.vh, ["unit", "-in", d, "-out", trace], "unit", timeout=300)
+    run.cov["lock_table_unit"] = st
+    res = run.tlc_validate("Trace_LockTable", "Trace_LockTable.cfg", trace, name="val_unit")
+    run.cov["trace_events"] = run.cov.get("trace_events", 0) + res["len"]
+    if res["hw"] == res["len"] + 1:
+        run.cov["traces_validated_against_impl"] = run.cov.get("traces_validated_against_impl", 0) + res["len"]
+        return True
+    div = res["div"]
+    events = vp.read_ndjson(trace)
+    at = div.get("at", 0)
+    tr = div.get("tr")
+    calls = [e for e in events if e.get("tr") == tr and e.get("i", 0) <= (events[at - 1].get("i", 0) if 0 < at <= len(events) else 0)]
+    run.cov["traces_validated_against_impl"] = run.cov.get("traces_validated_against_impl", 0) + max(0, at - 1)
+    what = ("utxo.SpinLock, call %d of sequence %s (%s by client %s): result %s, IsLocked(a, b, c) = %s; the lock table of "
+            "spec/LockTable.tla gives result %s, locked = %s" % (
+                events[at - 1].get("i", -1) if 0 < at <= len(events) else -1, tr, div.get("op"),
+                events[at - 1].get("c") if 0 < at <= len(events) else "?", json.dumps(div.get("actres")), json.dumps(div.get("act")),
+                json.dumps(div.get("expres")), json.dumps(div.get("exp"))))
+    run.violation(what, {"property": PID, "mode": "unit", "calls": calls, "divergence": div})
+    return False
 
 
 def replay(run, catalog, beh_dir, n, tag, shards=4):
@@ -194,6 +241,31 @@ class Stats:
         self.busy = 0
         self.inexact = []           # gated runs the step model does not describe (binding / prediction)
         self.classes = {}
+        self.walks = 0              # walks that returned ok (recovery finished)
+        self.walk_submit = 0        # walks that ran while another request was in flight (gated: had started and not returned)
+        self.walk_waited = 0        # gated runs in which the walk had to wait for readers (Lock() blocked)
+        self.walk_readmit = 0       # walks after which a rolled-back transaction of the run's requests is pending again
+        self.contract_blocks = 0    # blocks played / walked whose contract invocation was verified under the exclusive lock
+        self.account_blocks = 0     # ... whose spend of an account-owned output was verified under the exclusive lock
+        self.plays = 0
+
+    def order_sensitive(self, sc):
+        """A walk re-submits the rolled-back transactions in no particular order (map iteration): with a reader and a
+        writer of one key version among them the step model's prediction is one of several possible outcomes."""
+        req = self.cat["req"]
+        if not any(req[n]["ty"] == "walk" for n in sc):
+            return False
+        txs = [req[n]["t"] for n in sc if req[n]["ty"] == "dotx"]
+        for i, t in enumerate(txs):
+            for u in txs[i + 1:]:
+                la = {x["k"]: x["m"] for x in self.cat["lk"][t]}
+                lb = {x["k"]: x["m"] for x in self.cat["lk"][u]}
+                if any(k in lb and {la[k], lb[k]} == {"S", "X"} for k in la):
+                    return True
+        return False
+
+    def fam_of(self, sc):
+        return "kv" if sc[0] in self.cat["kvnames"] else "tok"
 
     def conflict(self, t, u):
         a, b = self.cat["tx"][t], self.cat["tx"][u]
@@ -214,6 +286,36 @@ class Stats:
             if r["c"] == "busy":
                 self.busy += 1
         n = len(sc)
+        blk = self.cat["fam"][self.fam_of(sc)].get("blk", [])
+        contract = [t for t in blk if any(v != "-" for v in list(self.cat["tx"][t]["reads"].values()) + list(self.cat["tx"][t]["writes"].values()))]
+        pre = self.cat["fam"][self.fam_of(sc)]["pre"]
+        acct = [t for t in blk if any(i[0] == "g" and self.cat["genesis"][i[1]]["to"] == "x" for i in self.cat["tx"][t]["ins"])]
+        for i in range(n):
+            ty = req[sc[i]]["ty"]
+            if ty in ("play", "walk") and res[i]["c"] == "ok":
+                if ty == "walk":
+                    self.walks += 1
+                    if e["mode"] != "gated":
+                        self.walk_submit += n > 1
+                    else:
+                        started, finished, met = set(), set(), False
+                        for q, site, _ in e["steps"]:
+                            if q == i + 1:          # a step of the walk (Lock() called / granted and done)
+                                met = met or bool(started - finished - {q})
+                            started.add(q)
+                            if site == "done":
+                                finished.add(q)
+                        self.walk_submit += met
+                    if any(req[m]["ty"] == "dotx" and req[m]["t"] in e["obs"]["pool"] for m in sc):
+                        self.walk_readmit += 1
+                else:
+                    self.plays += 1
+                # a contract invocation of the block that no request of the run submits (and that is not pending from
+                # the prelude) has certainly been verified by the play / walk itself
+                if e["obs"]["ptr"] == 2 and any(t not in pre and all(req[m]["t"] != t for m in sc) for t in contract):
+                    self.contract_blocks += 1
+                if e["obs"]["ptr"] == 2 and any(t not in pre and all(req[m]["t"] != t for m in sc) for t in acct):
+                    self.account_blocks += 1
         for i in range(n):
             for j in range(i + 1, n):
                 a, b = req[sc[i]], req[sc[j]]
@@ -230,6 +332,8 @@ class Stats:
             self.free += 1
             return
         self.gated += 1
+        if any(site == "wlock" and req[sc[p - 1]]["ty"] == "walk" for p, site, _ in e["steps"]):
+            self.walk_waited += 1
         inside, seen = set(), False
         for p, site, _ in e["steps"]:
             if site == "dotx_locked":
@@ -247,7 +351,7 @@ class Stats:
             why = "schedule entry %d not followed: %s" % (e["bind"], e.get("why"))
         elif exp != act:
             why = "sites reached differ from the schedule"
-        elif len(e["steps"]) == len(exp):      # complete schedule: compare the prediction
+        elif len(e["steps"]) == len(exp) and not self.order_sensitive(sc):      # complete schedule: compare the prediction
             for i in range(n):
                 if req[sc[i]]["ty"] != "sel" and pred["res"][i] != res[i]["c"]:
                     why = "process %d: predicted %s, real %s" % (i + 1, pred["res"][i], res[i]["c"])
@@ -279,6 +383,10 @@ def validate(run, stats, trace, tag, kf_known):
     what = "%s run of %s: %s not explained by any one-at-a-time order (results %s, pool %s, versions %s)" % (
         e.get("mode"), e.get("sc"), res["div"].get("why"), [r.get("c") for r in e.get("res", [])],
         e.get("obs", {}).get("pool"), e.get("obs", {}).get("ver"))
+    hung = [e["sc"][i] for i, r in enumerate(e.get("res", [])) if r.get("c") == "hang"]
+    if hung:
+        what = "%s run of %s: request(s) %s did not return within the driver's bound (deadlock; results %s)" % (
+            e.get("mode"), e.get("sc"), hung, [r.get("c") for r in e.get("res", [])])
     if e.get("op") == "race":
         what = "data race on the lock table reported by the race detector: %s" % e.get("where")
     run.violation(what, {"property": PID, "mode": e.get("mode"), "behaviour": {"sc": e.get("sc"), "sched": e.get("steps"),
@@ -335,11 +443,21 @@ def check(run):
     if run.replay:
         return replay_file(run, consts, kf_known)
 
-    # (1) design verdict: IDEAL protocol
-    mc(run, "MC_SpinLock_thorough.cfg" if thorough else "MC_SpinLock.cfg", ideal)
-    mc(run, "MC_SpinLock_live.cfg", ideal, workers=8)
+    # (1) design verdict: IDEAL protocol. The model checks read nothing of /repo: they run beside the conformance
+    # stages and are collected before the verdict (a failure is exit 2 whatever else was found)
+    mcpool = concurrent.futures.ThreadPoolExecutor(max_workers=4)
+    mcs = [mcpool.submit(mc, run, "MC_SpinLock_thorough.cfg" if thorough else "MC_SpinLock.cfg", ideal, 8 if not thorough else 12),
+           mcpool.submit(mc, run, "MC_SpinLock_live.cfg", ideal, 4),
+           mcpool.submit(mc_locktable, run)]
     if thorough:
-        mc(run, "MC_SpinLock_4.cfg", ideal)
+        mcs.append(mcpool.submit(mc, run, "MC_SpinLock_4.cfg", ideal, 8))
+
+    def collect_mc():
+        for f in mcs:
+            f.result()
+
+    # (0) the lock table on its own: whole TryLock / Unlock calls on a real SpinLock
+    ok = True if os.environ.get("VERIF_C12_NO_UNIT") else unit_level(run, thorough)      # (knob for self-tests of the other stages)
 
     stats = None
     # (3) conformance, exhaustive part: every schedule of two requests (normal forms)
@@ -348,9 +466,9 @@ def check(run):
     cat = json.load(open(catalog))[0]
     stats = Stats(cat)
     n2 = len(os.listdir(os.path.join(d2, "out")))
-    ok = True
-    for i, tr in enumerate(replay(run, catalog, os.path.join(d2, "out"), n2, "g2")):
-        ok = validate(run, stats, tr, "g2_%d" % i, kf_known) and ok
+    if ok:
+        for i, tr in enumerate(replay(run, catalog, os.path.join(d2, "out"), n2, "g2")):
+            ok = validate(run, stats, tr, "g2_%d" % i, kf_known) and ok
     run.cov["schedules_two_requests_exhaustive"] = n2
     # ... and every schedule of selected scenarios of three requests (two sharers + a writer of a key, write skew,
     # same output three times, child + play, three selectors)
@@ -432,6 +550,7 @@ def check(run):
     if ok:
         selftest(run, kf_known)
 
+    collect_mc()
     run.cov["real_result_classes"] = stats.classes
     run.cov["runs_gated"] = stats.gated
     run.cov["runs_free"] = stats.free
@@ -441,6 +560,13 @@ def check(run):
         "a refusal for a busy try-lock (ErrDoubleSpent) is accepted whenever another request of the run asks for a conflicting key (R6)",
         "two concurrent submissions of one transaction that only reads (no exclusive key) may both be answered 'admitted' (R6)",
         "an undo releases the selection locks of the outputs the undone transaction spent (UnlockKey in undoTxInternal)",
+        "a walk is its exclusive part followed by one re-submission per rolled-back transaction (the code hands them to a goroutine "
+        "of its own): each takes place somewhere after the walk, in no particular order among independent ones, and may drop "
+        "the transaction if it is no longer valid there or (R6) its lock keys are contended; the state between roll-back and "
+        "block may be seen by a verification outside the locks",
+        "gated runs: the recovery goroutine of a walk is not gated, it runs to its end within the walk's step (every other "
+        "request is parked outside the locks); scenarios with two exclusive requests are model checked and run free, not gated",
+        "a request counts as hanging after %d s without returning (driver constant arriveTimeout)" % 20,
     ]
     if not run.violations and run.cov.get("replay_stopped_after_hanging_requests"):
         raise vp.Undecided("a replay was cut short after hanging requests but no run was rejected")
@@ -463,6 +589,14 @@ def check(run):
         raise vp.Undecided("%d gated runs did not follow the schedule / the step model's prediction: the step model of "
                            "spec/SpinLock.tla no longer describes the code (binding lost), no verdict" % len(stats.inexact))
     run.finish(require={
+        "lock_table_calls_validated": (run.cov.get("lock_table_unit", {}).get("calls", 0), 5000),
+        "lock_table_trylock_refused_holding_a_prefix": (run.cov.get("lock_table_unit", {}).get("trylock_failed_holding_a_prefix", 0), 200),
+        "walks_returned": (stats.walks, 300),
+        "walks_while_another_request_is_in_flight": (stats.walk_submit, 250),
+        "walks_that_waited_for_readers": (stats.walk_waited, 40),
+        "walks_after_which_a_rolled_back_request_is_pending_again": (stats.walk_readmit, 40),
+        "blocks_with_a_contract_invocation_verified_under_the_exclusive_lock": (stats.contract_blocks, 150),
+        "blocks_with_an_account_owned_spend_verified_under_the_exclusive_lock": (stats.account_blocks, 150),
         "schedules_replayed": (stats.gated, 3000 if not thorough else 15000),
         "schedules_with_overlapping_critical_windows": (stats.overlap, 50),
         "conflicting_pairs_exactly_one_admitted": (stats.conflict_one, 50),
@@ -496,6 +630,18 @@ def selftest(run, kf_known):
 def replay_file(run, consts, kf_known):
     """--replay FILE: re-execute the recorded schedule on the current tree and judge it again."""
     rp = json.load(open(run.replay))
+    if rp.get("mode") == "unit":
+        # a call sequence on the lock table
+        d = run.sub("rpunit")
+        calls = [{k: c.get(k) for k in ("op", "c", "rd", "wr")} for c in rp["calls"] if c.get("op") != "reset"]
+        with open(os.path.join(d, "b_0.json"), "w") as f:
+            json.dump(calls, f)
+        trace = os.path.join(run.work, "rpunit.ndjson")
+        drive(run, run.vh, ["unit", "-in", d, "-out", trace], "rpunit", timeout=300)
+        res = run.tlc_validate("Trace_LockTable", "Trace_LockTable.cfg", trace, name="val_rpunit")
+        if res["hw"] != res["len"] + 1:
+            run.violation("utxo.SpinLock: the recorded call sequence is still not explained by spec/LockTable.tla: %s" % json.dumps(res["div"]), rp)
+        run.finish()
     d = gen_bfs(run, "Gen_SpinLock_cat.cfg", consts, "catr")
     catalog = os.path.join(d, "catalog.json")
     cat = json.load(open(catalog))[0]
